@@ -26,7 +26,8 @@ def run(args, prop="C01", backends=("vm",)):
                        "display order of objects with several fields is not decided here (C14)"]
     progs = programs(thorough, C.seed(), rnd)
     pool = C.Pool(C.build_worker())
-    results, cases, rendered = sem.run_programs(progs, rep, backends=backends, pool=pool)
+    results, cases, rendered = sem.run_programs(progs, rep, backends=backends, pool=pool,
+                                                vm_trace=lambda p: p["feats"]["family"] != "random" or hash(p["id"]) % 4 == 0 or thorough)
     from . import int64
     int64.run_family(rep, pool, backends=backends)
     ok = [p for p in progs if p["id"] in rendered]
